@@ -1263,6 +1263,69 @@ func c03(c *h.Ctx) {
 		}
 	}
 
+	// 6d. packets relayed as messages with the timestamp they had (a relay forwards onStatus, metadata and calls under the
+	// stream's clock, any 32-bit value) and through the AMF3 command / data message types (17, 15: one format byte, then
+	// the AMF0 body): the packet arrives as its kind with its payload, and so do the packets behind it
+	for _, ts := range []uint64{0, 1, 0xfffffe, 0xffffff, 0x1000000, 0x7fffffff, 0x80000000, 0x80000123, 0xfffffffe, 0xffffffff} {
+		for _, amf3 := range []bool{false, true} {
+			for _, L := range []int{10, 300} {
+				a, b := c03Pair()
+				call := rtmp.NewCallPacket()
+				call.CommandName, call.TransactionID = "onStatus", 0
+				call.CommandObject = amf0.NewNull()
+				info := amf0.NewObject()
+				info.Set("level", amf0.NewString("status")).Set("description", amf0.NewString(strings.Repeat("d", L)))
+				call.Args = info
+				payload, _ := c03Marshal(call)
+				ty, wire := uint8(20), payload
+				if amf3 {
+					ty, wire = 17, append([]byte{0}, payload...)
+				}
+				who := fmt.Sprintf("relayed onStatus (%d bytes) as a type-%d message at timestamp %d, then a user control packet and closeStream", len(payload), ty, ts)
+				st := h.Safe(func() string {
+					if err := a.p.WriteMessage(rtmp.VerifNewMessage(5, rtmp.MessageType(ty), 1, ts, wire)); err != nil {
+						return "write: " + err.Error()
+					}
+					uc := rtmp.NewUserControl()
+					uc.EventType, uc.EventData = rtmp.EventType(0), 1
+					if err := a.p.WritePacket(uc, 0); err != nil {
+						return "write uc: " + err.Error()
+					}
+					cs := rtmp.NewCloseStreamPacket()
+					if err := a.p.WritePacket(cs, 1); err != nil {
+						return "write closeStream: " + err.Error()
+					}
+					m, err := b.p.ReadMessage()
+					if err != nil {
+						return "read: " + err.Error()
+					}
+					if !bytes.Equal(m.Payload, wire) || uint8(m.MessageType) != ty {
+						return fmt.Sprintf("message arrived as type %d with %d bytes (equal=%v)", m.MessageType, len(m.Payload), bytes.Equal(m.Payload, wire))
+					}
+					q, err := b.p.DecodeMessage(m)
+					if err != nil {
+						return "decode: " + err.Error()
+					}
+					again, _ := c03Marshal(q)
+					if c03Kind(q) != "call" || !bytes.Equal(again, payload) {
+						return fmt.Sprintf("decoded as %s, re-marshals to %d bytes (equal=%v)", c03Kind(q), len(again), bytes.Equal(again, payload))
+					}
+					var puc *rtmp.UserControl
+					if _, err := b.p.ExpectPacket(&puc); err != nil {
+						return "the user control packet behind it: " + err.Error()
+					}
+					var pc *rtmp.CallPacket
+					if _, err := b.p.ExpectPacket(&pc); err != nil || string(pc.CommandName) != "closeStream" {
+						return fmt.Sprintf("closeStream behind it: %v", err)
+					}
+					return "ok"
+				})
+				c.Hold(st == "ok", "wire_dispatch.relayed_message", who, st, "ok")
+				c.Case(fmt.Sprintf("relayed/amf3=%v", amf3), who, true)
+			}
+		}
+	}
+
 	// 7. typed waits: A writes a run of packets, B waits for a kind (ExpectPacket) or for message types (ExpectMessage).
 	nwait := c.N(150, 4000)
 	for s := 0; s < nwait; s++ {
